@@ -168,7 +168,7 @@ for _dim in (2, 3):
             ctx.prove(f'corner[{cc}]', V.cmp('==', c.data[cc], want))
         ctx.prove('distinct', z3.Distinct(*[V.zint(x) for x in c.data]))
 
-    @harness(P, f'__init__.conn[dim={_dim}]', targets=[T('__init__'), T('get_elemconnectivity'), T('get_elemnumber')])
+    @harness(P, f'__init__.conn[dim={_dim}]', targets=[T('__init__'), T('get_elemconnectivity'), T('get_elemnumber')], tier=('quick' if _dim == 2 else 'thorough'))
     def h_conn(ctx, it, dim=_dim):
         """conn[e, c] is corner c of the element whose number is e (every row is defined exactly once); elements/nodes tables"""
         nx_, ny_, nz_ = ctx.sym('nelx'), ctx.sym('nely'), ctx.sym('nelz')
@@ -244,6 +244,18 @@ def h_dofconn(ctx, it):
         mul_mono(ctx, c, en_c, ndof, f'c_ndof{en_c}')
         ctx.prove(f'shape[{en_c}]', z3.And(V.zbool(V.cmp('==', r.shape[0], nel)), V.zbool(V.cmp('==', r.shape[1], V.mul(en_c, ndof)))))
         ctx.prove(f'expand[{en_c}]', V.cmp('==', r.at(e, col), C(e, c) * ndof + d))
+        from pvc.arrays import root_of
+        ctx.prove(f'fresh_result[{en_c}]', (r is not conn) and (root_of(r)[0] is not conn))
+    # ndof == 1 (a concrete case of its own: shortcuts for it must still return a fresh table)
+    C1 = ctx.fresh_fun('conn1', z3.IntSort(), z3.IntSort(), z3.IntSort())
+    conn1 = LArr((nel, 4), lambda i: C1(V.zint(i[0]), V.zint(i[1])), 'int')
+    dom1 = it.new_object(cls, conn=conn1, elemnodes=4)
+    r1 = it.call(it.getattr(dom1, 'get_dofconnectivity'), [1])
+    from pvc.arrays import root_of
+    ctx.prove('ndof1.fresh_result', (r1 is not conn1) and (root_of(r1)[0] is not conn1))
+    e1, c1 = ctx.fresh('e'), ctx.fresh('c')
+    ctx.assume(z3.And(e1 >= 0, e1 < nel, c1 >= 0, c1 < 4))
+    ctx.prove('ndof1.values', V.cmp('==', r1.at(e1, c1), C1(e1, c1)))
 
 
 # ------------------------------------------------------------------------------------------------ shape functions
@@ -287,3 +299,31 @@ for _dim in (1, 2, 3):
             N1 = it.call(it.getattr(dom, 'eval_shape_fun'), [p2])
             for c in range(2 ** dim):
                 ctx.prove(f'divided_difference[{i},{c}]', V.cmp('==', V.mul(dN.data[i, c], h), V.sub(N1.data[c], N0.data[c])))
+
+
+for _dim in (2, 3):
+    @harness(P, f'get_elemconnectivity.array_args[dim={_dim}]', targets=[T('get_elemconnectivity')])
+    def h_elemconn_arr(ctx, it, dim=_dim):
+        """vectorised form: for index arrays of any (here rank-dim, symbolic) shape the result has the argument shape plus a trailing
+        local-node axis, result[..., c] = corner c of element (i[...], j[...], k[...])"""
+        dom, (nx, ny, nz), _ = sym_domain(ctx, it, dim)
+        shp = tuple(ctx.sym(f's{a}') for a in range(dim))
+        for s in shp:
+            ctx.assume(s >= 1)
+        fs = [ctx.fresh_fun(n, *([z3.IntSort()] * dim), z3.IntSort()) for n in 'IJK']
+        arrs = [LArr(shp, (lambda idx, F=F: F(*[V.zint(x) for x in idx])), 'int') for F in fs]
+        if dim == 2:
+            arrs[2] = 0
+        c = it.call(it.getattr(dom, 'get_elemconnectivity'), arrs)
+        ctx.prove('rank', c.ndim == dim + 1)
+        ctx.prove('shape', z3.And(*[V.zbool(V.cmp('==', c.shape[a], shp[a])) for a in range(dim)] + [V.zbool(V.cmp('==', c.shape[dim], 2 ** dim))]) if c.ndim == dim + 1 else False)
+        pt = tuple(ctx.fresh('o') for _ in range(dim))
+        for a in range(dim):
+            ctx.assume(z3.And(pt[a] >= 0, pt[a] < shp[a]))
+        f = it.getattr(dom, 'get_nodenumber')
+        if c.ndim == dim + 1:
+            for cc in range(2 ** dim):
+                off = [(cc >> a) & 1 if a < dim else 0 for a in range(3)]
+                ijk = [arrs[a].at(*pt) if isinstance(arrs[a], LArr) else arrs[a] for a in range(3)]
+                want = it.call(f, [V.add(ijk[0], off[0]), V.add(ijk[1], off[1]), V.add(ijk[2], off[2])])
+                ctx.prove(f'corner[{cc}]', V.cmp('==', c.at(*pt, cc), want))
